@@ -466,6 +466,9 @@ func (h *History) dumpChunks(sh *tsdrv.Shard, r *gen.Rand) error {
 					continue
 				}
 				h.seenChunk[key] = true
+				if h.NSer > 3 && !r.Chance(3, h.NSer) { // many series: a sample of the (file, series) chunks
+					continue
+				}
 				d, err := dumpChunk(f, isOrder, sid, sr, r)
 				if err != nil {
 					return err
